@@ -28,7 +28,9 @@ func runC13(c *Ctx) {
 	c.Rule("C13.O4", "E4", "text handler behind CheckUtf8; close handler behind validCloseCode and CheckUtf8 on the >=2-byte edge; failing edges write a 1002 close and close; opcode 0 closes without delivery", 4)
 	c.Rule("C13.O5", "E8", "validCloseCode accepts {1000-1003,1007-1011,3000-4999}, rejects {0-999,1004-1006,1016-2999,>=5000} (1012-1015 unconstrained)", 1)
 	c.Rule("C13.O6", "E3,E7e", "every WebSocket read path tests the error of Parse and fails the connection", 3)
+	c.Rule("C13.O8", "E5", "UTF-8 validity is decided on whole messages: the stateless CheckUtf8 is applied only in the message handler (text message, close reason), never to a single frame's payload (a fragment boundary may fall inside a code point)", 1)
 	c.Rule("C13.O7", "E4", "default ping handler: WriteMessage(Pong, []byte(arg)); default close handler: close frame with the received code, empty for 1005", 2)
+	c13Utf8Scope(c)
 
 	// ------------------------------------------------------------------ O1
 	if vf := c.Fn("C13.O1", "(*websocket.Conn).validFrame"); vf != nil {
@@ -618,4 +620,29 @@ func c13MessageChecks(c *Ctx, hm *ssa.Function) {
 		}
 		c.Cond(bad == "", "C13.O4", fnKey(c.P, hm, "stray continuation closed"), c.Pos(i), "no delivery; Close on every path", bad)
 	}
+}
+
+// c13Utf8Scope: O8.
+func c13Utf8Scope(c *Ctx) {
+	callers := map[string]int{}
+	for _, f := range c.pkgFuncs("websocket") {
+		for _, cs := range c.P.Calls(f, func(name string, _ ir.CallSite) bool { return name == "dyn:nbhttp.Engine.CheckUtf8" }) {
+			_ = cs
+			callers[c.P.FuncName(ir.Outermost(f))]++
+		}
+	}
+	var extra []string
+	for name := range callers {
+		if name != "(*websocket.Conn).handleWsMessage" {
+			extra = append(extra, name)
+		}
+	}
+	sort.Strings(extra)
+	bad := ""
+	if len(extra) > 0 {
+		bad = fmt.Sprintf("CheckUtf8 is applied in %v, i.e. to part of a message: a valid text message whose fragments split a multi-byte code point would be rejected", extra)
+	} else if callers["(*websocket.Conn).handleWsMessage"] < 2 {
+		bad = "the whole-message UTF-8 checks (text, close reason) were not found in handleWsMessage"
+	}
+	c.Cond(bad == "", "C13.O8", "callers of Engine.CheckUtf8", "", fmt.Sprintf("%v", callers), bad)
 }
